@@ -892,13 +892,21 @@ func (s *scope) phiFacts(pr *proof, a Lin, x *ssa.Phi) {
 					mono = false
 					break
 				}
-				c, okc := intConst(b.Y)
-				if !(unspill(b.X) == ssa.Value(x) && okc && c >= 0) {
-					c2, okc2 := intConst(b.X)
-					if !(unspill(b.Y) == ssa.Value(x) && okc2 && c2 >= 0) {
-						mono = false
-						break
+				nonNeg := func(v ssa.Value) bool {
+					if c, okc := intConst(v); okc {
+						return c >= 0
 					}
+					// len(x), cap(x), copy(d, s) are never negative
+					if cl, _ := callOf(unspill(v)); cl != nil {
+						if bi, isB := cl.Common().Value.(*ssa.Builtin); isB && (bi.Name() == "len" || bi.Name() == "cap" || bi.Name() == "copy") {
+							return true
+						}
+					}
+					return false
+				}
+				if !(unspill(b.X) == ssa.Value(x) && nonNeg(b.Y)) && !(unspill(b.Y) == ssa.Value(x) && nonNeg(b.X)) {
+					mono = false
+					break
 				}
 			} else {
 				inits = append(inits, e)
